@@ -129,19 +129,19 @@ Definition nstep (s : nst) (o : nop) : res (nst * option N) :=
   end.
 
 (* ---------- encode: the name section that is built ---------- *)
-(* import loop: `function_names.append(import_func_idx, custom_name)` over the import vector, skipping deleted
-   entries, counting function imports *)
-Fixpoint emit_imp_names (pos idx : N) (l : list imp) (nm : nmap) : nmap :=
-  match l with
+(* import loop: the imports are emitted in the order Reindex.emitted_imports (every function / global / memory slot
+   is filled with the next import of its kind in index order, since the repair of D02); for every emitted function
+   import `function_names.append(import_func_idx, custom_name)`, counting the emitted function imports *)
+Fixpoint emit_imp_names (idx : N) (imports : list imp) (order : list N) (nm : nmap) : nmap :=
+  match order with
   | [] => []
-  | i :: l' =>
-      if i_del i then emit_imp_names (pos + 1) idx l' nm
-      else if N.eqb (i_sp i) 0 then
-        match lookup nm pos with
-        | Some t => (idx, t) :: emit_imp_names (pos + 1) (idx + 1) l' nm
-        | None => emit_imp_names (pos + 1) (idx + 1) l' nm
+  | k :: o' =>
+      if N.eqb (fst (import_at imports k)) 0 then
+        match lookup nm k with
+        | Some t => (idx, t) :: emit_imp_names (idx + 1) imports o' nm
+        | None => emit_imp_names (idx + 1) imports o' nm
         end
-      else emit_imp_names (pos + 1) idx l' nm
+      else emit_imp_names idx imports o' nm
   end.
 (* code loop: `for rel_func_idx in 0..functions.len()`: deleted and imported entries are skipped, the name is
    appended under the *position in the vector* *)
@@ -155,20 +155,21 @@ Fixpoint emit_body_names (pos : N) (l : list item) (nm : nmap) : nmap :=
            | None => emit_body_names (pos + 1) l' nm
            end
   end.
-Definition emit_fnames (s : nst) (lf : list item) : nmap :=
-  emit_imp_names 0 0 (m_imports (ns_m s)) (ns_imp s) ++ emit_body_names 0 lf (ns_body s).
+Definition emit_fnames (s : nst) (lf lg lm : list item) : nmap :=
+  emit_imp_names 0 (m_imports (ns_m s)) (emitted_imports (m_imports (ns_m s)) lf lg lm) (ns_imp s)
+  ++ emit_body_names 0 lf (ns_body s).
 
 (* every other map is the one that was parsed (D21) *)
-Definition emit_names (base : names) (s : nst) (lf : list item) : names :=
-  mkNames (n_module base) (emit_fnames s lf) (n_locals base) (n_labels base) (n_types base) (n_tables base)
+Definition emit_names (base : names) (s : nst) (lf lg lm : list item) : names :=
+  mkNames (n_module base) (emit_fnames s lf lg lm) (n_locals base) (n_labels base) (n_types base) (n_tables base)
           (n_mems base) (n_globals base) (n_elems base) (n_datas base) (n_tags base).
 
 Definition nencode (base : names) (s : nst) : res (emod * names) :=
   match encode (ns_m s) [] [] with
   | Panic w => Panic w
   | Ok e =>
-      match index_space (m_f (ns_m s)) with
-      | Ok (lf, _) => Ok (e, emit_names base s lf)
-      | Panic w => Panic w
+      match index_space (m_f (ns_m s)), index_space (m_g (ns_m s)), index_space (m_m (ns_m s)) with
+      | Ok (lf, _), Ok (lg, _), Ok (lm, _) => Ok (e, emit_names base s lf lg lm)
+      | Panic w, _, _ | _, Panic w, _ | _, _, Panic w => Panic w
       end
   end.
